@@ -229,6 +229,18 @@ func runC02Inbound(c *Ctx) error {
 		server := it%2 == 0
 		bits := 8 + it%8
 		spec := connSpec{Server: server, PMD: true, SrvTO: true, CliTO: true, SrvBits: bits, CliBits: bits, RLimit: 1 << 20}
+		if it%3 == 0 {
+			spec.RLimit = 100000 // below the size above which the pooled inflater drops its output buffer
+			// an earlier connection of the same server whose one compressed message fails part-way through its inflation
+			// (it inflates far beyond the read limit): the pooled inflater it used serves the connection below next
+			pc, ptap, err := spec.open(&recHandler{})
+			if err != nil {
+				return err
+			}
+			ptap.feed(encodeFrame(frameSpec{Fin: true, Rsv1: true, Opcode: 2, Masked: server, Key: [4]byte{8, 8, 8, 8}, Payload: rfc7692Deflate(bytes.Repeat([]byte("a"), 3<<20), nil, 6), DeclLen: -1}))
+			ptap.setEOF()
+			runWithTimeout(10*time.Second, pc.ReadLoop)
+		}
 		h := &recHandler{}
 		conn, tap, err := spec.open(h)
 		if err != nil {
@@ -279,11 +291,21 @@ func runC02Inbound(c *Ctx) error {
 		got := msgEvents(h)
 		tag := fmt.Sprintf("inbound it=%d server=%v bits=%d", it, server, wbits)
 		ok := len(got) == len(want)
-		for i := 0; ok && i < len(want); i++ {
-			ok = bytes.Equal(got[i].Payload, want[i])
+		firstBad := -1
+		for i := 0; i < len(want) && i < len(got); i++ {
+			if !bytes.Equal(got[i].Payload, want[i]) {
+				ok = false
+				if firstBad < 0 {
+					firstBad = i
+				}
+			}
 		}
 		if !ok {
-			c.oracleFail(fmt.Sprintf("gws did not inflate a conforming sender's stream correctly: %d of %d messages delivered intact [%s]", len(got), len(want), tag), "inbound-inflate", map[string]any{"tag": tag})
+			detail := fmt.Sprintf("%d messages delivered, %d sent", len(got), len(want))
+			if firstBad >= 0 {
+				detail += fmt.Sprintf("; message %d arrived with %d bytes (sent %d) and different content", firstBad, len(got[firstBad].Payload), len(want[firstBad]))
+			}
+			c.oracleFail(fmt.Sprintf("gws did not inflate a conforming sender's stream correctly: %s [%s]", detail, tag), "inbound-inflate", map[string]any{"tag": tag})
 		}
 		c.count(tag, true, "kind=inbound")
 	}
